@@ -143,8 +143,9 @@ def _library_frame(e: BaseException) -> str:
     where = ""
     while tb is not None:
         fn = tb.tb_frame.f_code.co_filename
-        if fn.startswith(root + os.sep) or fn.startswith("<compiled"):
-            where = f"{os.path.relpath(fn, root) if fn.startswith(root) else '<compiled>'}:{tb.tb_frame.f_code.co_name}"
+        if fn.startswith(root + os.sep) or fn.startswith("<compiled") or fn == "<string>":
+            # "<string>": the structure methods (__init__/__eq__/__bool__/__hash__) the library generates with exec; no check executes source text
+            where = f"{os.path.relpath(fn, root) if fn.startswith(root) else '<generated>' if fn == '<string>' else '<compiled>'}:{tb.tb_frame.f_code.co_name}"
         tb = tb.tb_next
     return where
 
